@@ -29,6 +29,8 @@ def run(chk):
              "(4 cells); every Execute overload calls CheckCallback before ExecuteInternal")
     chk.rule("Z.out-point-fresh", "[USINGZ] every destination of GetSegmentIntersectPt (which assigns x and y only) is a local declared inside every "
              "loop enclosing the call: no new vertex inherits the z a variable kept from an earlier iteration")
+    chk.rule("Z.crossing-default", "[USINGZ] a crossing point that a caller of IntersectEdges constructs itself (DoHorizontal) is constructed without a z argument, or as a "
+             "whole copy of one vertex: with no callback installed SetZ leaves the point alone, so this is the z the new vertex keeps")
     chk.rule("Z.carry", "[USINGZ] conversion layer (ScalePath(s), BuildPath64/D, PolyPath64/D, C export converters): a vertex built from the x and y of one "
              "source vertex has a z argument - converted, scaled or copied vertices keep their z")
     chk.rule("ZCB.preserved", "[USINGZ] no Clipper64::Execute overload (callees included) writes zCallback_: the callback the user installed is still installed at the next Execute")
@@ -49,6 +51,8 @@ def run(chk):
         if _nz < 4:
             raise AnalysisBroken("ZCB.preserved: zCallback_ is not among the configuration members of Clipper64 in %s" % z)
         e7.rule_out_point_fresh(dz, chk, z)
+        if e7.rule_crossing_default(dz, chk, z) < 1:
+            raise AnalysisBroken("Z.crossing-default: no caller of IntersectEdges constructs its crossing point (%s)" % z)
         e7.rule_no_whole_then_part(dz, chk, z)
         if e7.rule_z_carry(dz, chk, z) < 3:
             raise AnalysisBroken("Z.carry: fewer than 3 vertex constructions from one source vertex in the conversion layer (%s)" % z)
